@@ -15,6 +15,7 @@ import (
 	"regexp"
 	"sort"
 	"strings"
+	"sync"
 	"time"
 
 	"verif/internal/abs"
@@ -78,6 +79,32 @@ func loadTexts() []string {
 
 // the module that describes modules as data, compiled once and shared as well
 var fcYang *meta.Module
+
+// the browsers several goroutines use together, one per compiled instance of the fixture (the
+// instance for the results alone, the instance the goroutines share)
+var (
+	sharedBrowsers = map[*meta.Module]*node.Browser{}
+	sharedMu       sync.Mutex
+)
+
+func sharedBrowser(f *fx.Fixture) *node.Browser {
+	sharedMu.Lock()
+	defer sharedMu.Unlock()
+	return sharedBrowsers[f.Module]
+}
+
+// prepareShared builds (and does not touch) the common browser over a fixed tree
+func prepareShared(f *fx.Fixture, seed int64) {
+	gp := gen.Default
+	gp.PLeaf, gp.PCont, gp.PList = 0.8, 0.8, 0.8
+	t := (&gen.G{DS: f.DS, R: rand.New(rand.NewSource(seed)), P: gp}).Subtree(abs.Path{})
+	store := fx.Stores["nslice"]
+	// every request gets its own data tree (and its own root node) from the browser's source
+	b := node.NewBrowserSource(f.Module, func() node.Node { return store.Wrap(store.Build(f, t)) })
+	sharedMu.Lock()
+	sharedBrowsers[f.Module] = b
+	sharedMu.Unlock()
+}
 
 type op struct {
 	kind string
@@ -172,6 +199,15 @@ func mkOp(f *fx.Fixture, kind string, g, i int, seed int64) op {
 				return fail(err)
 			}
 			return store.Project(f, root).Canon().JSON()
+		}}
+	case "sexport":
+		return op{kind, func() string {
+			// one browser for everybody (set up by the worker, never used before the goroutines meet)
+			s, err := nodeutil.WriteJSON(sharedBrowser(f).Root())
+			if err != nil {
+				return fail(err)
+			}
+			return canonJSON(s)
 		}}
 	case "find":
 		return op{kind, func() string {
@@ -282,6 +318,8 @@ func RaceWorker() {
 		return
 	}
 	sharedYang := fcYang
+	prepareShared(f, run.Seed)
+	prepareShared(&shared, run.Seed)
 	ng := len(run.Progs)
 	ops := make([][]op, ng)
 	alone := make([][]string, ng)
